@@ -26,12 +26,12 @@ VARIANTS = [
     M('C10', 'set_regeneration-from-set_defaults', E(RT, "            elif k == 'tmp_dir':\n                cls.tmp_dir = kwargs[k]\n", "            elif k == 'tmp_dir':\n                cls.tmp_dir = kwargs[k]\n            elif k == 'regenerate':\n                cls.set_regeneration(None, kwargs[k])\n"),
       rule='C10-WHOSETS', key='set_defaults'),
     M('C10', 'write-all-spelling-dropped', E(TC, "    for writeflag in ('--W', '--write-all'):", "    for writeflag in ('--W',):"),
-      rule='C10-FLAGS', key='--write-all'),
+      rule='C10-FLAGS', key='unittest argv=--write-all'),
     M('C10', 'write-flag-sets-all-kinds', E(TC, "                    for r in argv[idx+1:]:\n                        for kind in r.split(','):\n                            ReferenceTestCase.set_regeneration(kind)",
                                             "                    for r in argv[idx+1:]:\n                        for kind in r.split(','):\n                            ReferenceTestCase.set_regeneration(kind)\n                        regenerate = True"),
-      rule='C10-FLAGS', key='regenerate=True'),
+      rule='C10-FLAGS', key='unittest argv=--write table'),
     M('C10', 'pytest-write-ignores-commas', E(PY, "                for kind in r.split(','):\n                    ReferenceTest.set_regeneration(kind)", "                for kind in [r]:\n                    ReferenceTest.set_regeneration(kind)"),
-      rule='C10-FLAGS', key='referencepytest.py::ref::set_regeneration(kind)'),
+      rule='C10-FLAGS', key="pytest options=['--write']"),
     M('C10', 'binary-reference-written-in-text-mode', E(RT, "        mode = 'wb' if binary else 'w'\n", "        mode = 'w'\n"),
       rule='C10-RW', key='binary'),
     M('C10', 'parquet-writer-extension-test-differs', E('tdda/referencetest/checkpandas.py', "        ext = os.path.splitext(path)[1].lower()\n        if ext == '.parquet':\n            df.to_parquet(path)", "        ext = os.path.splitext(path)[1]\n        if ext == '.parquet':\n            df.to_parquet(path)"),
